@@ -2,9 +2,7 @@ CONSTANTS
   Names = {"n1", "n2"}
   Toks = {"t1", "t2"}
 INIT Init
-NEXT NextAsCoded
+NEXT NextDeviant
 CHECK_DEADLOCK FALSE
 INVARIANTS
-  OnlyKnownDefect
-  RoundTrip
-  ExtractComplete
+  LastTruthful
